@@ -47,6 +47,7 @@ PARTITION = Contract(
         "rows_by_output_occupation": EXPAND.format(v="x", s="out_state", k="len(out_state)"),
         "cols_by_input_occupation": EXPAND.format(v="y", s="in_state", k="len(in_state)"),
         # ... and the result is the sub-matrix with ROWS taken by the output and COLUMNS by the input
+        "dims": "result.shape[0] == lsum(out_state, len(out_state)) and result.shape[1] == lsum(in_state, len(in_state))",
         "submatrix": "result.shape[0] == len(x) and result.shape[1] == len(y) and "
                      "forall((a,b), implies(0 <= a and a < len(x) and 0 <= b and b < len(y), mat_at(result,a,b) == mat_at(unitary, at(x,a), at(y,b))))",
     },
@@ -55,4 +56,58 @@ PARTITION = Contract(
     props=["C03"],
 )
 PARTITION.enum = enum_partition
-CONTRACTS = [PARTITION]
+PARTITION.modular = ["dims"]    # the clauses that do not mention the function's locals x, y
+PARTITION.result_type = "mat"
+PARTITION.pure = True          # a deterministic function of its arguments (modifies nothing): the same call denotes the same matrix in code and specification
+
+
+def replay_calculate(inp):
+    import math
+    import numpy as np
+    from thewalrus import perm
+    from lightworks.emulator.backend.permanent import Permanent
+    i, o = list(inp["in_state"]), list(inp["out_state"])
+    n = len(i)
+    if len(o) != n or any(x < 0 for x in i + o) or n == 0 or n > 4 or sum(i) > 5 or sum(i) != sum(o):
+        return None
+    rng = np.random.default_rng(7 + n)
+    U = rng.normal(size=(n, n)) + 1j * rng.normal(size=(n, n))
+    rows = [m for m in range(n) for _ in range(o[m])]
+    cols = [m for m in range(n) for _ in range(i[m])]
+    sub = np.array([[U[r, c] for c in cols] for r in rows], dtype=complex).reshape(len(rows), len(cols))
+    want = (perm(sub) if len(rows) else 1.0) / math.sqrt(math.prod(math.factorial(x) for x in i) * math.prod(math.factorial(x) for x in o))
+    got = Permanent.calculate(U, i, o)
+    if abs(got - want) > 1e-9 * max(1, abs(want)):
+        return f"Permanent.calculate(U, {i}, {o}) = {got}, expected perm(U[rows(out), cols(in)]) / sqrt(prod in! * prod out!) = {want}"
+    return None
+
+
+def enum_calculate():
+    import itertools
+    for n in (1, 2, 3):
+        for i in itertools.product(range(4), repeat=n):
+            for o in itertools.product(range(4), repeat=n):
+                if sum(i) == sum(o) and sum(i) <= 4:
+                    yield {"in_state": list(i), "out_state": list(o)}
+
+
+CALCULATE = Contract(
+    target=f"{F}:Permanent.calculate",
+    types={"unitary": "matsq", "in_state": "list[int]", "out_state": "list[int]"},
+    requires=["len(in_state) == len(out_state)", "unitary.shape[0] >= len(in_state)",
+              "forall(t, implies(0 <= t and t < len(in_state), at(in_state,t) >= 0 and at(out_state,t) >= 0))",
+              # same photon number in and out (the sub-matrix is square)
+              "lsum(in_state) == lsum(out_state)"],
+    modifies=[],
+    ensures={
+        # the bosonic amplitude formula of the statement: the permanent of the photon-indexed sub-matrix over the square root of the product
+        # of ALL occupation factorials (every mode of the input and of the output counts, with its multiplicity)
+        "amplitude_formula": "result == perm(partition(unitary, in_state, out_state)) / "
+                             "np.sqrt(prod([factorial(i) for i in in_state]) * prod([factorial(i) for i in out_state]))",
+    },
+    raises={},
+    replay=replay_calculate,
+    props=["C03"],
+)
+CALCULATE.enum = enum_calculate
+CONTRACTS = [PARTITION, CALCULATE]
